@@ -3,7 +3,7 @@
    ToHumanNameTitle) and generator/template_repo.go (pascalize, prefixForName), generator/language.go (MangleVarName,
    MangleFileName, MangleName) and the operation key of generator/shared.go gatherOperations.
    Names are lists of code points; Go's unicode tables are a parameter [u : uni].  Definitions only. *)
-From GS Require Import Base.Str.
+From GS Require Import Base.Str Gen.GenLanguage.
 
 Definition rune := N.
 Definition runes := list rune.
@@ -231,13 +231,15 @@ Definition to_human_title (name : runes) : runes :=
   join [32%N] (map (fun l => if lex_is_init l then trim_sp (lex_original l) else camelize_word (trim_sp (lex_original l))) (split true name)).
 
 (* ---- generator/language.go ---- *)
-Definition reserved_words : list runes :=
-  [s "break"; s "default"; s "func"; s "interface"; s "select"; s "case"; s "defer"; s "go"; s "map"; s "struct";
-   s "chan"; s "else"; s "goto"; s "package"; s "switch"; s "const"; s "fallthrough"; s "if"; s "range"; s "type";
-   s "continue"; s "for"; s "import"; s "return"; s "var"].
-Definition build_suffixes : list runes :=
+(* both tables are regenerated from GoLangOpts on every run (Gen/GenLanguage.v) *)
+Definition reserved_words : list runes := gen_reserved_words.
+Definition build_suffixes : list runes := gen_build_suffixes.
+
+(* what the go tool reads in the last word(s) of a file name: go/build/syslist.go knownOS and knownArch (past, present and
+   future ports: the lists only grow) and _test.  This is the toolchain's side, not go-swagger's. *)
+Definition go_build_words : list runes :=
   [s "aix"; s "android"; s "darwin"; s "dragonfly"; s "freebsd"; s "hurd"; s "illumos"; s "ios"; s "js"; s "linux"; s "nacl";
-   s "netbsd"; s "openbsd"; s "plan9"; s "solaris"; s "windows"; s "zos";
+   s "netbsd"; s "openbsd"; s "plan9"; s "solaris"; s "wasip1"; s "windows"; s "zos";
    s "386"; s "amd64"; s "amd64p32"; s "arm"; s "armbe"; s "arm64"; s "arm64be"; s "loong64"; s "mips"; s "mipsle"; s "mips64";
    s "mips64le"; s "mips64p32"; s "mips64p32le"; s "ppc"; s "ppc64"; s "ppc64le"; s "riscv"; s "riscv64"; s "s390"; s "s390x";
    s "sparc"; s "sparc64"; s "wasm"; s "test"].
